@@ -490,6 +490,7 @@ class Feedback:
 
     @classmethod
     def _restore_overrides(cls):
+        cls._pools.clear()
         backups = cls.__dict__.get('_override_backups')
         if not backups:
             return
@@ -502,7 +503,9 @@ class Feedback:
         backups.clear()
 
     @classmethod
-    def override_for_pool(cls, pool, **fields):
+    def override_for_pool(cls, pool, report=MAIN_REPORT, **fields):
+        # Pool overrides belong to the current grading: have the report undo them on clear
+        report.override_feedback(cls)
         if isinstance(pool, str):
             pool = [pool]
         for each_pool in pool:
